@@ -89,6 +89,45 @@ def _refine(e: ast.expr, even: bool, env: Dict[str, Optional[str]]) -> None:
         env[e.id] = want
 
 
+def _data_count(loop: ast.For) -> bool:
+    """The loop count is (an alias of) len / np.size / np.sum / count_nonzero of data, with no evenness construction."""
+    it = loop.iter
+    if not (isinstance(it, ast.Call) and it.args):
+        return False
+    e = it.args[0]
+    seen = 0
+    fn_defs = {}
+    cur = e
+    for _ in range(3):
+        if isinstance(cur, ast.Call):
+            nm = (dotted(cur.func) or "").split(".")[-1]
+            if nm in ("int", "float") and cur.args:
+                cur = cur.args[0]
+                continue
+            return nm in ("size", "len", "sum", "count_nonzero")
+        if isinstance(cur, ast.Name):
+            # find its (single) definition in the enclosing function: done by the caller's walk; approximate by searching upward
+            return _name_is_count(loop, cur.id)
+        break
+    return False
+
+
+_FUNC_OF = {}
+
+
+def _name_is_count(loop: ast.For, name: str) -> bool:
+    fn = _FUNC_OF.get(id(loop))
+    if fn is None:
+        return False
+    defs = [a for a in ast.walk(fn) if isinstance(a, ast.Assign) and len(a.targets) == 1 and isinstance(a.targets[0], ast.Name) and a.targets[0].id == name]
+    if len(defs) != 1:
+        return False
+    v = defs[0].value
+    while isinstance(v, ast.Call) and (dotted(v.func) or "").split(".")[-1] in ("int", "float") and v.args:
+        v = v.args[0]
+    return isinstance(v, ast.Call) and (dotted(v.func) or "").split(".")[-1] in ("size", "len", "sum", "count_nonzero")
+
+
 def _is_flip(st: ast.stmt) -> bool:
     if isinstance(st, ast.Assign) and isinstance(st.targets[0], ast.Subscript) and "factor_matrices" in ast.unparse(st.targets[0]):
         v = st.value
@@ -148,6 +187,9 @@ def parity(prog: Program, res: Result) -> None:
     # the parity of the flip count at the flip loop depends on the path: evaluate per reaching assignment of the count
     # (the count variable is assigned in if/else branches, so walk with joins would lose it): enumerate paths instead
     from ..paths import enumerate_paths
+    for n in ast.walk(fi.node):
+        if isinstance(n, ast.For):
+            _FUNC_OF[id(n)] = fi.node
     verdicts: Dict[int, List] = {}
     for items, end in enumerate_paths(fi.node.body, limit=50000):
         env: Dict[str, Optional[str]] = {}
@@ -186,6 +228,10 @@ def parity(prog: Program, res: Result) -> None:
         elif "ODD" in pars:
             res.bad("PARITY", fi.short, desc, prog.loc(fi, st),
                     "on at least one path the flip count is ODD: an odd number of factors changes sign and the component (hence the tensor) is negated")
+        elif None in pars and _data_count(st):
+            res.bad("PARITY", fi.short, desc, prog.loc(fi, st),
+                    f"the flip count `{cnt_txt}` is a data-dependent count that nothing forces to be even (no 2*floor(./2), no mod-2 case split): "
+                    "with an odd number of negative factors the component changes sign")
         else:
             res.undecided("PARITY", fi.short, desc, prog.loc(fi, st), f"parities {pars}")
     # normalize: negative weight repair
